@@ -82,7 +82,8 @@ def sync_worker(analysis: Analysis, ext: str) -> dict:
         pub = [e for e in s.events if e.kind == "store" and isinstance(e.recv, V) and e.recv.key() == tasks.key() and e.args and armed and _is_handle_of(e.args[0], armed[-1].recv, "threading.Timer.cancel")]
         pub_ok = bool(pub)
         pub_attrs = sorted({e.name for e in pub})
-        failed = [e for e in s.events if e.kind == "catch" and in_scope(e.func, cinfo, fac)]
+        # handled by the scheduler: in the closure, the factory or a helper of the tasks module they call
+        failed = [e for e in s.events if e.kind == "catch" and (in_scope(e.func, cinfo, fac) or e.func.startswith("task:"))]
         save_i = [i for i, e in enumerate(s.events) if e.kind == "enter" and e.name == "persistence:Persistence.save_sensors"]
         arm_i = [i for i, e in enumerate(s.events) if e in armed]
         interval = armed[-1].recv.args[0].value if armed and isinstance(armed[-1].recv.args[0], Const) else None
